@@ -17,7 +17,8 @@ checks, na = [], []
 for p in props:
     pid = p["id"]
     path = os.path.join(VERIF, "pbt", "props", pid.lower() + ".py")
-    if not os.path.exists(path):
+    registered = set(open(os.path.join(VERIF, "tools", "registered.txt")).read().split())
+    if not os.path.exists(path) or pid not in registered:
         na.append({"property_id": pid, "reason": NOT_BUILT_REASON.get(
             pid, "check not built yet in this revision of /verif (planned in DESIGN.md section 4); nothing is claimed")})
         continue
